@@ -264,6 +264,17 @@ def wiring(ck):
 # ------------------------------------------------------------------------------------------
 
 
+def target_checks(ck, combos, quick=True, lemmas_for=(("Optical", True),)):
+    for method, cut, scalar_cos in combos:
+        qn = "region_geometry:RegionGeomToO.mcintegral[%s,cut=%s%s]" % (method, cut, ",scalar-cos" if scalar_cos else "")
+        sc = Scenario(qn, build_target(method, cut, scalar_cos), TOO_EVENTS, TOO_SCALARS, positive=("sn", "sw"), axis="tm")
+        fc = FunctionCheck(ck, qn, sc, spec_target(method, cut, scalar_cos), ["mcintegral", "mcintegralgeoonly", "numEvPass", "stored_name", "stored_column"])
+        fc.explore().obligations()
+        fc.crosscheck(4 if quick else 20)
+        if (method, cut) in lemmas_for:
+            lemmas(ck, fc, qn, [])
+
+
 def run(ck):
     ck.assume("Sigma-lemma library (congruence, linearity, monotonicity, non-negativity, permutation invariance of finite sums) -- standard finite-sum facts, not re-proved here",
               "`exactly` is modulo floating-point summation order (reals)",
@@ -290,14 +301,7 @@ def run(ck):
     combos = [("Optical", True, False), ("Optical", False, False), ("Radio", True, True), ("Radio", False, True)]
     if not quick:
         combos += [("Optical", True, True), ("Radio", True, False)]
-    for method, cut, scalar_cos in combos:
-        qn = "region_geometry:RegionGeomToO.mcintegral[%s,cut=%s%s]" % (method, cut, ",scalar-cos" if scalar_cos else "")
-        sc = Scenario(qn, build_target(method, cut, scalar_cos), TOO_EVENTS, TOO_SCALARS, positive=("sn", "sw"), axis="tm")
-        fc = FunctionCheck(ck, qn, sc, spec_target(method, cut, scalar_cos), ["mcintegral", "mcintegralgeoonly", "numEvPass", "stored_name", "stored_column"])
-        fc.explore().obligations()
-        fc.crosscheck(4 if quick else 20)
-        if method == "Optical" and cut:
-            lemmas(ck, fc, qn, [])
+    target_checks(ck, combos, quick)
     # method precondition
     qn = "region_geometry:RegionGeomToO.mcintegral[bad-method]"
     sc = Scenario(qn, build_target("Both", True, False), TOO_EVENTS, TOO_SCALARS, positive=("sn", "sw"), axis="tm")
